@@ -153,6 +153,37 @@ CHECKS = {
         note="PARTIAL: jsonutils dumps/loads trusted.",
         technique="Lean 4 proof (printer layout lemma + parser simulation) + differential correspondence",
         design="§7 C15"),
+    'C16': dict(
+        text="Theorems: true_iff - for EVERY string, the reply allows iff it is True surrounded by any number of double quotes "
+             "(character-level lemma on lstrip/rstrip); the status code is irrelevant; faults_never_allow (timeout -> "
+             "RuntimeError, other transport failures propagate, missing TLS files raise before sending); allow_needs_reply; "
+             "payload - whatever is sent goes to the URL with placeholders filled and carries the enforced policy name, the "
+             "complete target (bare objects blanked in a copy) and the credentials in the configured encoding. Correspondence: "
+             "reply bodies around the accepted form x http/https x depth/alias, injected Timeout/ConnectionError, all TLS-file "
+             "configurations, both content types, caller's target deep-compared, with requests.post stubbed.",
+        note="PARTIAL: transport, TLS and JSON/form encoding are requests/oslo.serialization (stubbed / exercised only).",
+        technique="Lean 4 proof (string lemma for all bodies; case analysis) + differential correspondence with a recording stub",
+        design="§7 C16"),
+    'C17': dict(
+        text="Theorems for every wrap satisfying textwrap's contract, every splitlines, arbitrary description/reason text and "
+             "printable names/check strings: overrides_nothing - every line of the YAML sample is empty or begins with # and "
+             "contains no line-break character; states_every_default - the lines of the form #\"... are exactly the rule lines of "
+             "the defaults, one each; notes_only_in_comments; json_sample. Correspondence: the real _generate_sample on hostile "
+             "descriptions (every splitlines separator, YAML-significant words, long words, literal blocks) compared line by "
+             "line with the model, re-read with yaml.safe_load / json.loads / Rules.load before and after un-commenting.",
+        note="PARTIAL: textwrap.wrap, str.splitlines and the YAML reading of double-quoted scalars are library contracts (checked on every generated paragraph).",
+        technique="Lean 4 proof (line-structure invariant, for all wrap/splitlines meeting their contracts) + differential correspondence",
+        design="§7 C17"),
+    'C19': dict(
+        text="Theorems: verdict_is_library_decision - for every store, name it can resolve, credentials and target, the value the "
+             "tool obtains is exactly Enforcer.enforce's (do_raise off); derived_creds_mirror_invariant - the credentials the "
+             "tool derives are a fixed point of the library's system_scope mirroring; names_with_colon / names_sorted / "
+             "requested_only - which verdicts, in which order. Correspondence: real shell.tool stdout vs a real Enforcer on "
+             "the credentials/target the tool derived vs the model, on generated policies, sample and generated tokens, "
+             "nested target files, requested rules.",
+        note="json loading of token/target/policy files is library behaviour; a requested rule that is undefined with no default rule makes the tool raise KeyError (outside the property's inputs).",
+        technique="Lean 4 proof (unfolding to the enforce model; insertion-sort lemmas) + differential correspondence",
+        design="§7 C19"),
     'C20': dict(
         text="The property is FALSE for the current code: inplace_violates is a machine-checked counterexample (two-thread "
              "small-step model of the in-place rebuild, by decide) and the deterministic scheduler reproduces it on the real "
